@@ -1,7 +1,7 @@
 (* Extraction of the executable models and oracles.  ExtrOcamlBasic only:
    bool/option/unit/list/prod/sumbool/sumor map to OCaml's; nat, positive, N, Z stay Coq datatypes. *)
 From Coq Require Import Extraction ExtrOcamlBasic.
-From SV Require Import Diff Det DiffOracle Lines Config gen_Consts Exec Utf8 gen_Unicode Escape Template gen_Template TemplateModel Crlf Capture gen_Kinds ExpGrammar Rules.
+From SV Require Import Diff Det DiffOracle Lines Config gen_Consts Exec Utf8 gen_Unicode Escape Template gen_Template TemplateModel Crlf Capture gen_Kinds ExpGrammar Rules LineParser CramSpec.
 Extraction Language OCaml.
 (* stable names for the driver (record field names may be renamed by the extraction when they clash) *)
 Definition make_exp (o m : bool) (f : nat -> bool) : exp nat := mkExp nat o m f.
@@ -17,4 +17,5 @@ Extraction "svmodel.ml"
   utf8_decode utf8_encode is_other has_unprintable escaped_printable escaped_expectation decode escaped_matches trim_newlines printable
   split_mod extract parse render_exp matches_content lookup_kind kind_names expression_as_escaped
   m_equal m_noeol m_escaped glob_match full print_top cram_glob_re
+  parse_cram str_lines render_cram wf_cram cram_tests_of
   replace_crlf crlf_spec render_output recorded render around single_at expr_placeholder replace_all.
